@@ -11,7 +11,10 @@ import (
 )
 
 // rng is a splitmix64 PRNG: every random choice of a run derives from one seed.
-type rng struct{ s uint64 }
+type rng struct {
+	s     uint64
+	small bool // keep strings, lists and payloads short (streams of many frames)
+}
 
 func (r *rng) next() uint64 {
 	r.s += 0x9e3779b97f4a7c15
@@ -80,6 +83,12 @@ func (r *rng) bytesN(n int) []byte {
 
 // string length, boundary-biased; big lengths are rare (cost).
 func (r *rng) strLen() int {
+	if r.small {
+		if r.chance(1, 3) {
+			return 0
+		}
+		return r.intn(12)
+	}
 	switch r.intn(40) {
 	case 0:
 		return 65535
